@@ -175,9 +175,8 @@ class VmTuple(TlbScheme):
         if len(values) == 0:
             return Cell.empty()
         builder = Builder()
-        value = values.pop()
-        builder.store_cell(VmTupleRef.serialize(values))
-        builder.store_ref(VmStackValue.serialize(value))
+        builder.store_cell(VmTupleRef.serialize(VmTuple(values.list[:-1])))  # head: the caller's tuple is left untouched
+        builder.store_ref(VmStackValue.serialize(values.list[-1]))
         return builder.end_cell()
 
     @classmethod
